@@ -813,6 +813,8 @@ impl CatalogPersistence {
     pub fn save(catalog: &Catalog, path: &Path) -> Result<()> {
         let catalog_bytes = Self::serialize(catalog).wrap_err("failed to serialize catalog")?;
 
+        #[cfg(kahflane_turdb_verif)]
+        crate::verif::point("catalog_create");
         let mut file = File::create(path)
             .wrap_err_with(|| format!("failed to create catalog file at '{}'", path.display()))?;
 
@@ -841,14 +843,22 @@ impl CatalogPersistence {
         let catalog_length = catalog_bytes.len() as u64;
         header[72..80].copy_from_slice(&catalog_length.to_le_bytes());
 
+        #[cfg(kahflane_turdb_verif)]
+        crate::verif::point("catalog_write");
         file.write_all(&header)
             .wrap_err("failed to write file header")?;
 
+        #[cfg(kahflane_turdb_verif)]
+        crate::verif::point("catalog_write");
         file.write_all(&catalog_bytes)
             .wrap_err("failed to write catalog data")?;
 
+        #[cfg(kahflane_turdb_verif)]
+        crate::verif::point("catalog_sync");
         file.sync_all()
             .wrap_err("failed to sync catalog file to disk")?;
+        #[cfg(kahflane_turdb_verif)]
+        crate::verif::synced(&file);
 
         Ok(())
     }
